@@ -533,13 +533,13 @@ Proof.
       rewrite (Hcont seen Hctx Hseen); [reflexivity|]. intros Hs. rewrite (Hnot Hs). reflexivity.
     + (* FBool *) apply Ok_inj in E1. subst b1. unfold enc_bool. cbn [dec_field app dec_u8 obind norm_val]. rewrite nb_eqb1.
       rewrite (Hcont seen Hctx Hseen); [reflexivity|]. intros Hs. rewrite (Hnot Hs). reflexivity.
-    + (* FEsm *) apply Ok_inj in E1. subst b1. cbn [dec_field app dec_u8 obind norm_val].
+    + (* FEsm *) change (esm_fits e) with (wf_esm e) in E1; rewrite Hv in E1. apply Ok_inj in E1. subst b1. cbn [dec_field app dec_u8 obind norm_val].
       rewrite (wf_esm_roundtrip e Hv).
       apply andb_true_iff in Hctx. destruct Hctx as [Hns Hctx]. apply negb_true_iff in Hns.
       pose proof (Hnot Hns) as Hu. rewrite udhi_of_cons in Hu.
       rewrite (esm_free_udhi lay u_enc ks vs (ctx_ok_seen_esm_free _ _ _ Hctx) Hvs), orb_false_r in Hu.
       rewrite (IH vs true u_enc (e_udhi e) b2 Hctx); [reflexivity | intros _; congruence | discriminate | exact Hvs | exact E2].
-    + (* FRegDel *) apply Ok_inj in E1. subst b1. cbn [dec_field app dec_u8 obind norm_val].
+    + (* FRegDel *) change (regdel_fits r) with (wf_regdel r) in E1; rewrite Hv in E1. apply Ok_inj in E1. subst b1. cbn [dec_field app dec_u8 obind norm_val].
       rewrite (wf_regdel_roundtrip r Hv).
       rewrite (Hcont seen Hctx Hseen); [reflexivity|]. intros Hs. rewrite (Hnot Hs). reflexivity.
     + (* FAddr *) rewrite (wf_addr_no_nul _ Hv) in E1. apply Ok_inj in E1. subst b1. cbn [dec_field]. rewrite (dec_addr_enc _ _ Hv). cbn [obind norm_val].
